@@ -788,9 +788,13 @@ func (tree *MutableTree) SaveVersion() ([]byte, int64, error) {
 			// it means the reference node is a legacy node
 			if tree.root.isLegacy {
 				// it will update the legacy node to the new format
-				// which ensures the reference node is not a legacy node
-				tree.root.isLegacy = false
-				if err := tree.ndb.SaveNode(tree.root); err != nil {
+				// which ensures the reference node is not a legacy node.
+				// A copy is converted: the node object is shared through the node cache, and a
+				// root that stays marked as converted would not be written again after a rollback
+				// has removed the converted record.
+				converted := *tree.root
+				converted.isLegacy = false
+				if err := tree.ndb.SaveNode(&converted); err != nil {
 					return nil, 0, fmt.Errorf("failed to save the reference legacy node: %w", err)
 				}
 			}
